@@ -108,33 +108,37 @@ Qed.
 (* one operation keeps the counter >= -1, the handler table well formed, and never indexes outside the list *)
 Lemma exec_op_in_bounds : forall ops c o st,
   targets_ok ops = true -> hok st -> nth_op ops c = Some o ->
-  exec_op ops c o st = SErr \/ exists c' st', exec_op ops c o st = SOk c' st' /\ -1 <= c' /\ hok st'.
+  match exec_op ops c o st with
+  | SOk c' st' => -1 <= c' /\ hok st'
+  | SPanic => False
+  | _ => True
+  end.
 Proof.
   intros ops c o st Hok Hh Hn. destruct (nth_op_in _ _ _ Hn) as [Hin Hc].
   unfold targets_ok in Hok. rewrite forallb_forall in Hok. specialize (Hok o Hin).
   destruct o as [k h|d|x e|u e|x v|cnd idx|t idx|l idx|l idx]; cbn [exec_op].
-  - right. eexists c, _. split; [reflexivity|]. split; [lia | apply hok_declare_handler; [exact Hh | lia]].
-  - left. reflexivity.
-  - destruct (eval st e) as [v|]; [|left; reflexivity].
-    destruct (set_var st x v) as [st'|] eqn:Es; [|left; reflexivity].
-    right. exists c, st'. split; [reflexivity|]. split; [lia|]. unfold hok. rewrite (set_scopes_hs _ _ _ _ Es). exact Hh.
-  - destruct (eval st e) as [v|]; [right; eexists c, _; split; [reflexivity|split; [lia|exact Hh]] | left; reflexivity].
-  - right. eexists c, _. split; [reflexivity|]. split; [lia | apply hok_declare_var; exact Hh].
+  - split; [lia | apply hok_declare_handler; [exact Hh | lia]].
+  - exact I.
+  - destruct (eval st e) as [v|]; [|exact I].
+    destruct (set_var st x v) as [st'|] eqn:Es; [|exact I].
+    split; [lia|]. unfold hok. rewrite (set_scopes_hs _ _ _ _ Es). exact Hh.
+  - destruct (eval st e) as [v|]; [split; [lia|exact Hh] | exact I].
+  - split; [lia | apply hok_declare_var; exact Hh].
   - cbn in Hok. apply andb_prop in Hok. destruct Hok as [H1 H2]. apply Z.leb_le in H1, H2.
-    destruct (eval st cnd) as [v|]; [|left; reflexivity]. right.
-    destruct (truthy v); [exists c, st | exists (idx - 1), st]; (split; [reflexivity|]; split; [lia | exact Hh]).
-  - cbn in Hok. apply andb_prop in Hok. destruct Hok as [H1 H2]. apply Z.leb_le in H1, H2. right.
+    destruct (eval st cnd) as [v|]; [|exact I].
+    destruct (truthy v); (split; [lia | exact Hh]).
+  - cbn in Hok. apply andb_prop in Hok. destruct Hok as [H1 H2]. apply Z.leb_le in H1, H2.
     destruct (c <=? idx) eqn:E.
     + apply Z.leb_le in E.
       destruct (walk_fwd_ok ops (S (length ops + Z.to_nat (Z.abs idx) + Z.to_nat (Z.abs c))) c (idx - 1) st) as [st' Hs];
         [lia | lia | lia |].
-      rewrite Hs. exists (Z.max c (idx - 1)), st'. split; [reflexivity|]. split; [lia | exact (walk_fwd_hok _ _ _ _ _ _ _ Hh Hs)].
+      rewrite Hs. split; [lia | exact (walk_fwd_hok _ _ _ _ _ _ _ Hh Hs)].
     + apply Z.leb_gt in E.
       destruct (walk_bwd_ok ops (S (length ops + Z.to_nat (Z.abs idx) + Z.to_nat (Z.abs c))) c (idx - 1) st) as [st' Hs];
         [lia | lia | lia |].
-      rewrite Hs. exists (Z.min c (idx - 1)), st'. split; [reflexivity|]. split; [lia | exact (walk_bwd_hok _ _ _ _ _ _ _ Hh Hs)].
-  - right. eexists c, _. split; [reflexivity|]. split; [lia | apply hok_push; exact Hh].
-  - right. eexists c, _. split; [reflexivity|]. split; [lia | apply hok_pop; exact Hh].
+      rewrite Hs. split; [lia | exact (walk_bwd_hok _ _ _ _ _ _ _ Hh Hs)].
+  - split; [lia | apply hok_push; exact Hh].
+  - split; [lia | apply hok_pop; exact Hh].
 Qed.
 
 Lemma exit_scan_ok : forall ops n pos rem,
@@ -184,11 +188,12 @@ Proof.
   intros ops Hok fuel. induction fuel as [|f IH]; intros counter st Hh Hc; [discriminate|].
   cbn [run]. destruct (counter + 1 <? 0) eqn:E; [apply Z.ltb_lt in E; lia|].
   destruct (nth_op ops (counter + 1)) as [o|] eqn:Hn; [|discriminate].
-  destruct (exec_op_in_bounds ops (counter + 1) o st Hok Hh Hn) as [He | [c' [st' [He [Hb Hh']]]]]; rewrite He.
+  pose proof (exec_op_in_bounds ops (counter + 1) o st Hok Hh Hn) as He.
+  destruct (exec_op ops (counter + 1) o st) as [c' st'| | |]; [| |contradiction|discriminate].
+  - destruct He as [Hb Hh']. exact (IH _ _ Hh' Hb).
   - pose proof (handle_error_in_bounds ops (counter + 1) st Hh ltac:(lia)) as Hhe.
     destruct (handle_error ops (counter + 1) st) as [| | |c' st']; try discriminate; [contradiction|].
     destruct Hhe as [Hb Hh']. exact (IH _ _ Hh' Hb).
-  - exact (IH _ _ Hh' Hb).
 Qed.
 
 Lemma hok_init : forall ps us, hok (init_state ps us).
